@@ -808,7 +808,7 @@ def code_key(seed, tier):
 
 
 def n_runs(tier):
-    return 8000 if tier == 'thorough' else 800
+    return 6000 if tier == 'thorough' else 600
 
 
 def pool_size():
